@@ -1,6 +1,7 @@
 From Coq Require Import Extraction ExtrOcamlBasic.
-From Elk Require Import Base.Utf8 Model.C19_Inspect.
+From Elk Require Import Base.Utf8 Model.C19_Inspect Model.C19_Literal.
 Extraction Language OCaml.
 Extraction Blacklist List String.  (* keep OCaml Stdlib.List visible to ocaml/common/zio.ml *)
 Separate Extraction inspect_string inspect_char inspect_string_old inspect_char_old print_int
-  lex_string_body lex_char_body eval_int_source eval_int_literal.
+  lex_string_body lex_char_body eval_int_source eval_int_literal
+  eval_literal to_int.
